@@ -158,8 +158,8 @@ def one_image(rng, bits, tier):
     """-> list of cases (file and view of the same image)"""
     dlls = rand_dlls(rng)
     mut = rng.choice(["clean", "clean", "clean", "no_desc_term", "no_thunk_term", "no_name_term", "wild", "oft0", "early_term",
-                      "misalign_desc", "misalign_thunk", "iat_size", "dir_rva", "num_rva", "zero_fill", "tail_cut"])
-    if mut in ("no_thunk_term", "no_name_term", "wild", "oft0", "early_term", "misalign_thunk") and not dlls:
+                      "misalign_desc", "misalign_thunk", "iat_size", "dir_rva", "num_rva", "zero_fill", "tail_cut", "name0"])
+    if mut in ("no_thunk_term", "no_name_term", "wild", "oft0", "early_term", "misalign_thunk", "name0") and not dlls:
         dlls = [Dll(b"k.dll", [("n", 3, b"Fn"), ("o", 9)])]
     if mut in ("no_thunk_term", "wild") and not any(d.imports for d in dlls):
         dlls[-1].imports = [("n", 1, b"g"), ("o", 2)]
@@ -226,6 +226,13 @@ def one_image(rng, bits, tier):
         # FirstThunk = 0 in a descriptor that is otherwise alive: the scan stops there
         i = rng.randrange(len(dlls))
         struct.pack_into("<I", blob, info["desc_off"] + 20 * i + 16, 0)
+    elif mut == "name0":
+        # every field but FirstThunk zero (or a wild Name): still a live descriptor for the code
+        i = rng.randrange(len(dlls))
+        if rng.random() < 0.5:
+            blob[info["desc_off"] + 20 * i:info["desc_off"] + 20 * i + 16] = bytes(16)
+        else:
+            struct.pack_into("<I", blob, info["desc_off"] + 20 * i + 12, rng.choice([0, 1, U32, va + len(blob) - 1, va + len(blob), 0x3C]))
     elif mut == "zero_fill":
         # the terminators live in the virtual-only tail (VirtualSize > SizeOfRawData): drop trailing zero bytes
         while blob and blob[-1] == 0 and len(blob) > info["desc_off"] + 1:
